@@ -20,6 +20,8 @@ TECH["C10"]="rapid property-based testing through the generated Go client: error
 TECH["C11"]="rapid structure-aware mutation fuzzing of request bodies against the emitted Go server, and of responses against the emitted Go client; oracles: clean 200/400, no dispatch of undecodable bodies, no panic/hang"
 TECH["C17"]="rapid-generated call multisets executed concurrently under the race detector; oracle = race report + per-call equality with isolated execution"
 TECH["C20"]="rapid property-based testing of the emitted mock server: build/vet oracle plus response decode/example-membership oracles"
+TECH["C18"]="rapid property-based testing of emitted OpenAPI documents: independent YAML/JSON parsers, structural invariants, YAML-vs-JSON metamorphic equality"
+TECH["C19"]="rapid differential testing of two acceptance sets: reference buf.validate rule semantics vs Python jsonschema (2020-12) on boundary probes"
 TEXT={
  "C12":("Generated-input search: every rule x placement cell of the documented catalogue is injected into rapid-drawn valid schemas and judged at the process boundary of the real plugins; the converse is checked on every base schema. Exploration, not proof: cells are enumerated, surroundings sampled.","§5 C12"),
  "C14":("Differential property test over rapid-drawn schemas: byte identity of same-named files, plus behavioural equality of server-only and client-only builds on generated values. Exploration.","§5 C14"),
@@ -38,6 +40,8 @@ TEXT["C10"]=("rapid draws an error source, a hook behaviour and a content type p
 TEXT["C11"]=("Valid model-encoded bodies are mutated (wrong type per field at depth, truncation, trailing data, top-level scalars, deep nesting, invalid UTF-8, duplicate keys, random and truncated wire data) under many content types; server verdicts must be 200 or a well-formed 400 and invalid-in-every-form bodies are never dispatched. The Go client is fed arbitrary status/content-type/body combinations. Exploration; bytes-level coverage guidance is not used.","§5 C11")
 TEXT["C17"]=("Random multisets of 10-80 calls over all routes run at parallelism 1-32 through shared generated clients and one shared generated server in a -race build; each call's result is compared with the same call issued alone. Schedules are sampled, not enumerated: the weakest claim of the set.","§5 C17")
 TEXT["C20"]=("Schemas are generated with generate_mock=true; the package must build and vet, the mock-backed generated server must answer valid requests with 200 and a body that decodes to the response type in its documented JSON form, and fields with examples must hold a parsable example. Exploration on the sub-domain the mock generator compiles for; the rest is pinned as known findings.","§5 C20")
+TEXT["C18"]=("Every emitted document of rapid-drawn schemas is parsed with parsers the plugin does not use and checked for the listed structural invariants under all four format settings; YAML and JSON renderings are compared as trees. Exploration.","§5 C18")
+TEXT["C19"]=("For each rule-carrying field probes at and around every bound are encoded with the reference model and judged both by the reference rule semantics and by jsonschema against the published property schema; any disagreement is a violation. Exploration with boundary-directed probes.","§5 C19")
 NOTE={
  "C12":"Trusted: schema generator + protodesc gate stand in for protoc; error text naming the offender is the 'names the offender' criterion.",
  "C14":"Trusted: protoc-gen-go, Go toolchain, protovalidate stand-in (not exercised by codecs).",
@@ -56,6 +60,8 @@ NOTE["C10"]="Trusted: stand-in protovalidate (standard-rule subset) produces the
 NOTE["C11"]="Trusted: reference model for the valid body, encoding/json + protojson grammar knowledge for 'invalid in every accepted form'; timing bound is 100x median and >= 2 s, re-checked before it counts."
 NOTE["C17"]="Trusted: Go race detector; the harness does not own the scheduler; in-memory transport."
 NOTE["C20"]="Trusted: as C13 for the build half; OpenAPI conformance of mock bodies is left to C06's validator."
+NOTE["C18"]="Trusted: go.yaml.in/yaml/v4 and encoding/json as independent parsers; descriptor-derived reachability; libopenapi's own model builder is not used as a second opinion (it is the library under test's dependency)."
+NOTE["C19"]="Trusted: Python jsonschema Draft 2020-12; the stand-in validator as R; float32 values equal to a bound are not probed (decimal shortest form is ambiguous at the boundary)."
 claimed=sorted(TECH)
 checks=[]
 for p in claimed:
